@@ -243,6 +243,9 @@ def selftest(ctx):
 
 
 def run(ctx):
+    from spverif.ref import enums as _enums
+    if ctx.shard[0] == 0:
+        _enums.check(ctx, "code_tables", ['spacepackets.cfdp.defs', 'spacepackets.cfdp.pdu.ack', 'spacepackets.cfdp.pdu.file_directive', 'spacepackets.cfdp.pdu.prompt'])
     from spverif.san import scribble
     scribble.install()
     r = ctx.rng
